@@ -4,6 +4,12 @@
 
 mod c25;
 mod c26;
+mod common;
+mod slt;
+
+// Every SelectExecutor allocates a zeroed 10 MiB arena per query; pool those blocks (see vcore::bigalloc)
+#[global_allocator]
+static GLOBAL: vcore::bigalloc::ArenaCache = vcore::bigalloc::ArenaCache;
 
 fn usage() -> ! {
     eprintln!("usage: cacheaclcheck check <C25|C26> <quick|thorough> | cacheaclcheck replay <path>");
@@ -58,6 +64,25 @@ fn main() {
             }
         },
         "replay" if args.len() >= 3 => replay(&args[2]),
+        // development aid: execute statements, `#SECURITY` enables security, `#ROLE x` switches role
+        "sql" => {
+            let mut db = vibesql_storage::Database::new();
+            vibesql_types::verif::reset();
+            for s in &args[2..] {
+                if s == "#SECURITY" {
+                    db.enable_security();
+                } else if let Some(r) = s.strip_prefix("#ROLE ") {
+                    db.set_role(Some(r.to_string()));
+                } else {
+                    let before: std::collections::BTreeMap<_, _> = vibesql_types::verif::snapshot().into_iter().collect();
+                    let o = vcore::exec::exec(&mut db, s);
+                    let after = vibesql_types::verif::snapshot();
+                    let d: Vec<String> = after.into_iter().filter(|(k, v)| *v > *before.get(k).unwrap_or(&0)).map(|(k, _)| k.to_string()).collect();
+                    println!("{}\n   => {}   reach: {:?}", s, o.brief(), d);
+                }
+            }
+            0
+        }
         _ => usage(),
     };
     std::process::exit(code);
